@@ -180,6 +180,37 @@ func (c *Cluster) Start(i int, o NodeOpts) error {
 	if nd.Up {
 		return fmt.Errorf("node %d already up", i)
 	}
+	conf := c.SerfConfig(i, o)
+	s, err := serf.Create(conf)
+	if err != nil {
+		nd.Tr.Shutdown()
+		return err
+	}
+	c.Adopt(i, s, conf)
+	return nil
+}
+
+// Adopt registers a Serf instance created from a SerfConfig(i) configuration
+// (by serf.Create or by the agent) as node i.
+func (c *Cluster) Adopt(i int, s *serf.Serf, conf *serf.Config) {
+	nd := c.Nodes[i]
+	mc := conf.MemberlistConfig
+	nd.S, nd.Conf = s, conf
+	nd.Del = mc.Delegate
+	nd.Ev = mc.Events
+	nd.notified = map[string]bool{nd.Name: true}
+	mc.Events = &evWrap{n: nd, orig: nd.Ev}
+	nd.Up = true
+	nd.Inc++
+	nd.Events = nil
+	nd.Self = *s.Memberlist().LocalNode()
+	synctest.Wait()
+}
+
+// SerfConfig builds the configuration of node i: passive memberlist on simnet,
+// long maintenance intervals, a large event channel.
+func (c *Cluster) SerfConfig(i int, o NodeOpts) *serf.Config {
+	nd := c.Nodes[i]
 	nd.Log = &ringLog{max: 0}
 	if verbose {
 		nd.Log.max = 200
@@ -224,22 +255,7 @@ func (c *Cluster) Start(i int, o NodeOpts) error {
 	if o.Mutate != nil {
 		o.Mutate(conf)
 	}
-	s, err := serf.Create(conf)
-	if err != nil {
-		nd.Tr.Shutdown()
-		return err
-	}
-	nd.S, nd.Conf = s, conf
-	nd.Del = mc.Delegate
-	nd.Ev = mc.Events
-	nd.notified = map[string]bool{nd.Name: true}
-	mc.Events = &evWrap{n: nd, orig: nd.Ev}
-	nd.Up = true
-	nd.Inc++
-	nd.Events = nil
-	nd.Self = *s.Memberlist().LocalNode()
-	synctest.Wait()
-	return nil
+	return conf
 }
 
 // Stop shuts node i down (used for crash and for the end of a leave).
